@@ -337,6 +337,11 @@ impl Prop for C15 {
         None
     }
 
+    fn view(c: &Case) -> serde_json::Value {
+        let (text, _) = file_text(c);
+        serde_json::json!({"file": text, "replies": c.prog.replies.iter().map(|r| r.text.clone()).collect::<Vec<_>>(), "opts_warnings_tracing_skipcheck": c.opts, "binary_pair": c.binary, "eof_after_replies": c.eof_after})
+    }
+
     fn shrink(c: &Case) -> Vec<Case> {
         let mut out = vec![];
         for p in shrink_prog_case(&c.prog) {
